@@ -52,6 +52,7 @@ class Src:
         self.nontrivial = False
         self.files: dict[str, str] = {}
         self._dict_counter = 0
+        self.chain = False
 
 
 def gen_source(rng, hazardous=True) -> Src:
@@ -122,6 +123,15 @@ def gen_source(rng, hazardous=True) -> Src:
             s.nontrivial = True
         if name not in ("missing", "../up", "sub\\win"):
             s.files[name] = gen.plain_key(rng) + "_inc  1;\n"
+    if rng.random() < 0.35:
+        # an include chain of depth two with comments in the deeper file (they are not comments of this source:
+        # with comments on they are merged in as entries of the included files, with comments off none may appear)
+        s.lines.append("#include 'chainA'")
+        s.includes.append("chainA")
+        s.files["chainA"] = "#include 'sub/chainB'\n// comment in chainA\nfromA  1;\n"
+        s.files["sub/chainB"] = "// comment in chainB\nfromB  2;\nnb\n{\n    // nested comment in chainB\n    q  3;\n}\n/* block in chainB */\n"
+        s.chain = True
+        s.nontrivial = True
     body(0, 0)
     return s
 
@@ -215,6 +225,11 @@ def oracle(case: dict):
     finally:
         shutil.rmtree(tmp, ignore_errors=True)
     lcs, bcs, incs = scan_output(out)
+    if case.get("chain"):
+        foreign = ("// comment in chainA", "// comment in chainB", "// nested comment in chainB")
+        lcs = [(dp, t) for dp, t in lcs if t not in foreign]
+        bcs = [(dp, t) for dp, t in bcs if t != "/* block in chainB */"]
+        incs = [x for x in incs if unq(x) != "sub/chainB"]     # the include directive of the included file chainA
     exp_l = dedup_per_dict(case["line_comments"])
     got_l = [(dp, t) for dp, t in lcs]
     if got_l != [(dp, t.rstrip()) for dp, t in exp_l]:
@@ -239,7 +254,10 @@ def oracle(case: dict):
                 pass
             return ("block-comments", f"block comment {t!r} at depth {dp} not found in the output; found {bcs!r}")
     n_extra = len(bcs) - len(exp_b)
-    if n_extra not in ((0,) if own_header else (1,)):
+    # (block comment ids are local to each file: with an include chain, block comments of included files may show up
+    #  under this source's texts; the property is about this source's own comments, so the count is only checked
+    #  when no included file carries block comments)
+    if not case.get("chain") and n_extra not in ((0,) if own_header else (1,)):
         return ("block-comments", f"{len(bcs)} block comments written, {len(exp_b)} in the source (+ default header: {not own_header})")
     if [unq(x) for x in incs] != list(case["includes"]):
         return ("includes", f"include directives written {incs!r}, source names {case['includes']!r}")
@@ -273,7 +291,7 @@ KNOWN_PREDICATES = {}
 
 def mk_case(s: Src) -> dict:
     return {"text": source_text(s), "line_comments": s.line_comments, "block_comments": s.block_comments,
-            "includes": s.includes, "own_header": s.own_header, "files": s.files}
+            "includes": s.includes, "own_header": s.own_header, "files": s.files, "chain": getattr(s, "chain", False)}
 
 
 def run(ctx):
